@@ -122,7 +122,7 @@ pub fn run(a: &Args) -> Report {
     rep.merge(r2);
     rep.extra.insert("exhaustive_len5_histories".into(), json!(total5));
     // seeded random walks
-    let walks = a.n(2000, 100000);
+    let walks = a.n(20000, 200000);
     let seed = a.seed;
     let r3 = parallel(walks, a.threads, |i, rep| {
         let mut rng = Rng::derive(seed, 0xC11, i as u64);
@@ -177,7 +177,7 @@ pub fn run(a: &Args) -> Report {
     rep.sample(json!({"kind": "exhaustive", "alphabet": alpha.iter().map(|x| x.to_string()).collect::<Vec<_>>(), "lengths": "<=3 (all) and 5 (16-value sub-alphabet)", "limits": limits.iter().map(|x| x.to_string()).collect::<Vec<_>>()}));
 
     // the client codec: a refused reply must simply be dropped; the replies that follow are still delivered
-    let n = a.n(300, 3000);
+    let n = a.n(1500, 6000);
     let r4 = parallel(n, a.threads.min(1).max(1), |i, rep| client_codec_history(seed, i as u64, rep));
     rep.merge(r4);
     rep
